@@ -14,15 +14,27 @@ import (
 
 func init() { subcommands["diag"] = diagCmd }
 
+// File ids 1..4 get look-alike names: each is a path suffix of the next (util.go, v/util.go, w/v/util.go,
+// x/w/v/util.go), so that anything comparing file names by base name, suffix or prefix instead of equality shows; the
+// directory names keep the lexicographic order of the names equal to the order of the ids (the model sorts by id).
+var lookAlikeDirs = []string{"", "v/", "w/v/", "x/w/v/"}
+
 func fileName(id int, test bool) string {
+	base := "util.go"
+	if test {
+		base = "util_test.go"
+	}
+	if id >= 1 && id <= len(lookAlikeDirs) {
+		return lookAlikeDirs[id-1] + base
+	}
 	if test {
 		return fmt.Sprintf("f%03d_test.go", id)
 	}
 	return fmt.Sprintf("f%03d.go", id)
 }
 
-var fileRe = regexp.MustCompile(`f(\d+)(?:_test)?\.go`)
-var flowRe = regexp.MustCompile(`^\t- (f\d+(?:_test)?\.go:\d+:\d+): `)
+var fileRe = regexp.MustCompile(`(x/w/v/|w/v/|v/|)util(?:_test)?\.go|f(\d+)(?:_test)?\.go`)
+var flowRe = regexp.MustCompile(`^\t- ((?:(?:x/w/v/|w/v/|v/|)util|f\d+)(?:_test)?\.go:\d+:\d+): `)
 var placesRe = regexp.MustCompile(`at (\d+) other place\(s\): (.*)\.\)`)
 var quotedRe = regexp.MustCompile(`"([^"]*)"`)
 
@@ -34,7 +46,16 @@ func canonPlace(s string) string {
 	if m == nil {
 		return "?" + s
 	}
-	id, _ := strconv.Atoi(m[1])
+	id := 0
+	if m[2] != "" {
+		id, _ = strconv.Atoi(m[2])
+	} else {
+		for i, d := range lookAlikeDirs {
+			if d == m[1] {
+				id = i + 1
+			}
+		}
+	}
 	rest := s[strings.Index(s, m[0])+len(m[0]):]
 	return strconv.Itoa(id) + rest
 }
